@@ -11,4 +11,7 @@ RG_Inst == <<[cls |-> "Dense",
               sorted |-> <<1>>]>>
 RG_Templates == <<[name |-> "Dense", root |-> 1, ev |-> <<[i |-> 1, a |-> 1]>>]>>
 RG_MaxLen == 1
+RG_KnownBad == {}
+RG_AllLen == 1
+RG_Conflict == {"Dense"}
 ====
